@@ -1156,7 +1156,9 @@ def surface_deriv_cpts(dim, degree, kv, cpts, cpsize, rs, ss, deriv_order=0):
                 PKL[k][0][i][j - ss[0]] = PKu[k][i]
 
     # Control points of the V derivatives of every U-differentiated V-curve
-    for k in range(0, du):
+    # (k runs up to and including du: for deriv_order > degree[0] the mixed entries PKL[du][l >= 1] are needed too;
+    # Algorithm A3.7 as printed stops at du - 1 and leaves them unset)
+    for k in range(0, du + 1):
         for i in range(0, r - k + 1):
             dd = min(deriv_order - k, dv)
 
